@@ -833,14 +833,33 @@ func (m *Model) buildMap(named *types.Named, iface string) *MapModel {
 		}
 	}
 	// immutable entry type (MapOf): struct type converted to from a slot load in Load
+	// (in Load itself, or in the lookup helper(s) it hands the work to)
 	if ld := mm.Methods["Load"]; ld != nil {
-		Instrs(ld, func(in ssa.Instruction) {
-			if cv, ok := in.(*ssa.Convert); ok {
-				if n := namedOf(cv.Type()); n != "" && n != mm.TableT && !contains(mm.BucketT, n) && structOf(cv.Type()) != nil {
-					mm.EntryT = n
-				}
+		seen := map[*ssa.Function]bool{}
+		var visit func(f *ssa.Function, depth int)
+		visit = func(f *ssa.Function, depth int) {
+			if f == nil || f.Blocks == nil || seen[f] || depth > 3 || f.Pkg != p.Xsync {
+				return
 			}
-		})
+			seen[f] = true
+			Instrs(f, func(in ssa.Instruction) {
+				if cv, ok := in.(*ssa.Convert); ok {
+					if n := namedOf(cv.Type()); n != "" && n != mm.TableT && !contains(mm.BucketT, n) && structOf(cv.Type()) != nil {
+						if c, isCall := cv.X.(*ssa.Call); isCall {
+							if op, addr, isAt := AtomicOp(c); isAt && op == "Load" && contains(mm.BucketT, Addr(addr).Owner) {
+								mm.EntryT = n
+							}
+						} else if mm.EntryT == "" && f == ld {
+							mm.EntryT = n
+						}
+					}
+				}
+				if c, ok := in.(ssa.CallInstruction); ok {
+					visit(Callee(c), depth+1)
+				}
+			})
+		}
+		visit(ld, 0)
 	}
 	sort.Strings(mm.Problems)
 	return mm
